@@ -93,7 +93,7 @@ def canon_model_bind(txt):
 def main():
     R = vf.Report(PID)
     proved = R.proof_step()
-    n = 3000 if R.thorough else 300
+    n = 15000 if R.thorough else 300
     cases = []
     for c in CORPUS:
         c = dict(c); c.setdefault("dtypes", {}); c.setdefault("ret_dtype", "float32")
@@ -113,7 +113,7 @@ def main():
                 p["dim"] = (p["dim"] + " {k}").strip()
                 case["shapes"][p["name"]] = case["shapes"][p["name"]] + [case["ints"]["k"] if R.rng.random() < .8 else 5]
         cases.append(case)
-    npt = 400 if R.thorough else 40
+    npt = 4000 if R.thorough else 40
     for c in PYTREE_CORPUS + [gen_pytree_case(R.rng) for _ in range(npt)]:
         c = dict(c); c.setdefault("shapes", {}); c.setdefault("dtypes", {}); c.setdefault("ret_shape", []); c.setdefault("ret_dtype", "float32")
         cases.append(c)
@@ -135,7 +135,7 @@ def main():
         if any("union" in p or "pytree" in p for p in c["params"]) or (c["ret"] and "pytree" in c["ret"]):
             continue
         ps = [c02.use_coq(p["dim"], cat_dtypes[p["cat"]], c["shapes"][p["name"]], c["dtypes"].get(p["name"], "float32")) for p in c["params"]]
-        ret = "None" if not c["ret"] else "(Some %s)" % c02.use_coq(c["ret"]["dim"], cat_dtypes[c["ret"]["cat"]], c["ret_shape"], c["ret_dtype"])
+        ret = "(@None step)" if not c["ret"] else "(Some %s)" % c02.use_coq(c["ret"]["dim"], cat_dtypes[c["ret"]["cat"]], c["ret_shape"], c["ret_dtype"])
         syms = [t.split("=")[-1].lstrip("#*_?") for p in c["params"] for t in p["dim"].split()] + ([t.split("=")[-1].lstrip("#*_?") for t in c["ret"]["dim"].split()] if c["ret"] else [])
         args = vf.coqlist(sorted(c.get("ints", {}).items()), lambda kv: "(%s, %s)" % (vf.coqstr(kv[0]), vf.coqz(kv[1])))
         terms.append("(%s, %s, %s, %s)" % (G.symtab_coq(syms), args, vf.coqlist(ps), ret)); mcases.append(id(c))
@@ -158,7 +158,7 @@ def main():
             dims += [stp["dim"]] if stp["kind"] == "arr" else T.leaf_dims(stp["leaf"])
         syms = [t.split("=")[-1].lstrip("#*_?") for d in dims for t in d.split()]
         cd = dict(T.CAT_DTYPES); cd.update({k: v for k, v in cat_dtypes.items()})
-        pterms.append("(%s, %s, %s)" % (G.symtab_coq(syms), vf.coqlist(steps, lambda x: T.step_coq(x, cd)), vf.coqopt(rstep, lambda x: T.step_coq(x, cd))))
+        pterms.append("(%s, %s, %s)" % (G.symtab_coq(syms), vf.coqlist(steps, lambda x: T.step_coq(x, cd)), ("(@None pstep)" if rstep is None else "(Some %s)" % T.step_coq(rstep, cd))))
         pcases.append(id(c))
     pres = dict(zip(pcases, vf.coq_eval_strings(["model.PWrapper"], "fun c => let '(st, ps, r) := c in run_pcall st [] ps r", pterms, shard=400))) if pterms else {}
 
